@@ -35,7 +35,7 @@ MustFail == e.a[1] = 1        \* set by the generator for corruptions inside the
                               \* (3 = burst across a checksum-field boundary: claimed by C07, not guaranteed - open finding)
 RTr == e.a[2]
 Cfg == [tr |-> e.a[2], mem16 |-> e.a[3] = 1, cap |-> e.a[4]]
-AllocFail == e.a[5] = 1
+AllocFail == e.a[5] % 2 = 1        \* (bit 1 of the field selects the slab-style allocator in the harness)
 Verdict == e.a[6]
 VAddr == <<e.a[7], e.a[8]>>
 ND == e.a[9]
